@@ -50,12 +50,22 @@ def probe(h, bundle):
         async def go():
             return await h.engine.execute(text, operation_name=r["op"], context=h.ctx_token, variables=copy.deepcopy(r["variables"]), initial_value=h.root_value(r["root"]))
 
-        out.append(canon(core.jsonable(run_async(go()))))
+        resp = run_async(go())
+        out.append(canon(core.jsonable(resp)))
+        core.scribble(resp, h.name)
 
     async def intro():
         return await h.engine.execute(INTROSPECTION)
 
     out.append(canon(core.jsonable(run_async(intro()))))
+    # documents refused by validation rules (the same rules in every bundle)
+    for bad in ("{ zzNoSuchField }", "query Q($zzUnused: Int) { __typename }", "{ __typename { x } }"):
+        async def refused(bad=bad):
+            return await h.engine.execute(bad, context=h.ctx_token)
+
+        resp = run_async(refused())
+        out.append(canon(core.jsonable(resp)))
+        core.scribble(resp, h.name)
     for s in bundle.get("subscriptions") or ():
         rs = c14.new_state(schema, s)
         got = run_async(c14.consume_plain(h, s, rs, print_document(s["doc"]).text))
@@ -163,9 +173,11 @@ def run_scenario(spec):
     for i, (h, b) in enumerate(zip(hs, bundles)):
         got = probe(h, b)
         want = spec["solo"][i]
+        if h.foreign:
+            raise Violation(spec, "implementations registered for schema name b%d were invoked for requests of other schema names: %r\norder=%r" % (i, h.foreign[:5], spec["order"]), tag="foreign")
         for k, (g, w) in enumerate(zip(got, want)):
             if g != w:
-                what = "data request %d" % k if k < len(b["requests"]) else ("introspection" if k == len(b["requests"]) else "subscription")
+                what = "data request %d" % k if k < len(b["requests"]) else ("introspection" if k == len(b["requests"]) else "refused document / subscription")
                 raise Violation(spec, "bundle %d (schema name b%d), %s: co-resident engine answers differently from the same bundle built alone in a fresh process\n co-resident: %s\n alone:       %s\norder=%r" % (
                     i, i, what, g[:1500], w[:1500], spec["order"]), tag="differs")
 
